@@ -259,11 +259,28 @@ def main():
             st = pipeline.parse_stages(h.ask("stages %s 6" % sp) or [])
             tuples = [[chk.rng.choice([0, 1, -1, 7, (1 << 31), -(1 << 31) - 1, (1 << 63) - 1, -(1 << 63), 10**18, -(10**18)]) for _ in range(n)] for _ in range(4 if chk.tier == "quick" else 40)] if n else [[]]
             tuples.append(list(range(1, n + 1)))
+            # non-canonical DECIMAL spellings of the arguments (leading zeros, explicit plus sign): "given in
+            # decimal" does not mean "canonically formatted"
+            spelled = []
+            if 1 <= n <= 3:
+                for sp in (["010", "-0020", "+7"], ["0000000000000000001", "-01000", "+0777"], ["08", "-09", "+0"], ["00", "-0", "009"]):
+                    spelled.append(sp[:n])
             if n <= 5 and "S7x" in st and st["S7x"][0] == "OK":
                 okA, msg, obj = native.assemble_x86(st["S7x"][1], work, "args%d" % n)
                 drv = native.real_driver(h, n, work)
                 okL, msgL, exe = native.link_x86(obj, drv, work, "argsexe%d" % n) if okA and drv else (False, msg, None)
                 chk.obligation("build:x86-args%d" % n, "build", okL, (msgL or "")[:200])
+                for sp in spelled if okL else []:
+                    out, status = native.run(exe, sp)
+                    vals = [int(x) for x in sp]
+                    chk.count(("x86-args-spelled", n, tuple(sp)))
+                    exp = b"".join(dec(v) + b"\n" for v in vals)
+                    if out != exp or status != vals[0] % 256:
+                        found_failing = True
+                        chk.impl_oracle_failures.append({"arch": "x86", "n": n, "argv": sp, "stdout": out.decode(errors="replace")[:120], "status": status})
+                        chk.violation("args:x86:decimal-spelling", "x86-64 main with %d parameters run with argv %s prints %r, exit %s (decimal values %s)" % (n, sp, out[:80], status, vals),
+                                      "args_spelled_%d.txt" % n, "params=%d\nargv=%s\nstdout=%r\nstatus=%s\nexpected stdout=%r status=%d\nsource:\n%s\n" % (n, sp, out, status, exp, vals[0] % 256, src))
+                        break
                 for tup in tuples if okL else []:
                     out, status = native.run(exe, tup)
                     chk.count(("x86-args", n, tuple(tup)))
